@@ -272,23 +272,50 @@ func runOnce(c Case) string {
 			}
 			pendingBytes = nil
 		}
+		var got []vaxis.Event
 		for _, t := range st.Toks {
 			b, evs, gap := expand(t, false)
-			pendingBytes = append(pendingBytes, b...)
 			want = append(want, evs...)
-			if gap {
-				flush()
-				time.Sleep(70 * time.Millisecond)
+			if !gap {
+				pendingBytes = append(pendingBytes, b...)
+				continue
+			}
+			// a lone ESC: everything before it is processed first (collect
+			// to the sentinel), then the ESC arrives on its own and its
+			// event is awaited - no fixed sleep, the machine may be busy
+			flush()
+			before, msg := collect(s, 10*time.Second)
+			if msg == "-" {
+				return ""
+			}
+			if msg != "" {
+				return fmt.Sprintf("step %d: %s", si, msg)
+			}
+			got = append(got, before...)
+			s.TTY.Inject(b)
+			deadline := time.After(10 * time.Second)
+		await:
+			for {
+				select {
+				case ev := <-s.Vx.Events():
+					if publicEvent(ev) {
+						got = append(got, ev)
+						break await
+					}
+				case <-deadline:
+					break await // reported below as "produced no event"
+				}
 			}
 		}
 		flush()
-		got, msg := collect(s, 10*time.Second)
+		rest, msg := collect(s, 10*time.Second)
 		if msg == "-" {
 			return ""
 		}
 		if msg != "" {
 			return fmt.Sprintf("step %d: %s", si, msg)
 		}
+		got = append(got, rest...)
 		// align
 		gi := 0
 		for wi, e := range want {
